@@ -159,4 +159,15 @@ def loop (cfg : Cfg) (c : Cred) : List Method → St → St × Outcome
 
 def verifyClient (cfg : Cfg) (st : St) (c : Cred) : St × Outcome := loop cfg c cfg.methods st
 
+/-- `Endpoint.parse_request` after `client_authentication`: the client the endpoint-specific code goes on
+    with (`req["client_id"]`) and whether the request counts as authenticated. The authenticated
+    identity always replaces what the body claims; the body's `client_id` is used only when nothing
+    was authenticated and the endpoint has no method list (otherwise UnAuthorizedClient was raised).
+    `none`: an exception left `parse_request`, nothing is acted upon. -/
+def treatedAs (cfg : Cfg) (o : Outcome) (bodyId : Option Str) : Option (Option Str × Bool) :=
+  match o with
+  | .accepted id m => some (some id, decide (m ≠ .publicM ∧ m ≠ .noneM))
+  | .nothing => if cfg.methods.isEmpty then some (bodyId, false) else none
+  | _ => none
+
 end Idpy.ClientAuthn
